@@ -141,9 +141,12 @@ theorem monoC (n : Nat) (ih : MonoAt n) : ∀ F w f args r, callG (n+1) F w f ar
     | none => rw [hf] at h; simp only at h ⊢; exact h
     | some fn =>
       rw [hf] at h; simp only at h ⊢
-      rcall h1 p w1 : execBlockG n F ((fn.params.zip args).map fun x => (x.1.1, x.2)) w fn.body,
-        execBlockG (n+1) F ((fn.params.zip args).map fun x => (x.1.1, x.2)) w fn.body, ih.bl
-      exact h
+      by_cases har : (fn.params.length != args.length) = true
+      · simp only [har, if_true] at h ⊢; exact h
+      · simp only [har] at h ⊢
+        rcall h1 p w1 : execBlockG n F ((fn.params.zip args).map fun x => (x.1.1, x.2)) w fn.body,
+          execBlockG (n+1) F ((fn.params.zip args).map fun x => (x.1.1, x.2)) w fn.body, ih.bl
+        exact h
   | _ => exact h
 
 theorem monoB (n : Nat) (ih : MonoAt n) : ∀ F ρ w ss r, execBlockG (n+1) F ρ w ss = r → r.nf → execBlockG (n+2) F ρ w ss = r := by
